@@ -281,14 +281,16 @@ pub fn run(tape: &[u8], ctx: &mut Ctx) {
 		// but the error may surface at a different value: a slice knows up front that a block's
 		// advertised size exceeds the input, a stream only finds out when it runs dry (the values
 		// before the error are a genuine prefix either way, which is what C17 demands).
+		// (A sequence without a terminal was cut by the harness after 24 values: its error, if any,
+		// lies further on, so it is compared like one that ends in an error.)
 		fn same_outcome(a: &[String], b: &[String]) -> bool {
-			let is_err = |s: &[String]| matches!(s.last().map(|x| x.as_str()), Some("error") | Some("open-error"));
-			if is_err(a) && is_err(b) {
-				let (va, vb) = (&a[..a.len() - 1], &b[..b.len() - 1]);
-				let n = va.len().min(vb.len());
-				va[..n] == vb[..n]
-			} else {
+			let ended = |s: &[String]| s.last().map(|x| x.as_str()) == Some("end");
+			let values = |s: &'_ [String]| -> usize { s.iter().take_while(|x| x.starts_with("value")).count() };
+			if ended(a) || ended(b) {
 				a == b
+			} else {
+				let n = values(a).min(values(b));
+				a[..n] == b[..n]
 			}
 		}
 		let a = drive(serde_avro_fast::object_container_file_encoding::Reader::from_slice(&file));
